@@ -18,7 +18,7 @@ RULE = ("protocol-conformant libovni programs (1-3 threads of one process, turn-
         "(1) every stream.obs passes the independent validator (header, tiling, non-decreasing clocks, OF[ / OF] "
         "strictly alternating, never nested or left open) and equals the emit log; (2) stream.json is complete "
         "(version 3, part, tid, pid, loom, app_id, require, lib.version/commit, finished = 1, the CPUs added); "
-        "(3) ovniemu -l exits 0.  Plus free-running conformant programs of 2-8 threads with multi-MiB streams whose thread_free calls are released together (direct and OVNI_TMPDIR), same oracle.  Non-trivial = an automatic flush happened; distinct = script.")
+        "(3) ovniemu -l exits 0.  One program in six runs into a directory that already holds longer streams of an earlier run with the same ids.  An enumerated part runs programs with 1100 / 3x400 (thorough: more) short-lived threads and the tools under the default open-files limit of 1024.  Plus free-running conformant programs of 2-8 threads with multi-MiB streams whose thread_free calls are released together (direct and OVNI_TMPDIR), same oracle.  Non-trivial = an automatic flush happened; distinct = script.")
 ASSUMPTIONS = ["turn-based execution: ovni_clock_now() is monotonic across threads of the process (CLOCK_MONOTONIC)"]
 
 MAX = rt.MAX_EV_BUF
